@@ -1133,17 +1133,17 @@ static int json_object_double_to_json_string_format(struct json_object *jso, str
 		}
 		if (p && (flags & JSON_C_TO_STRING_NOZERO))
 		{
-			/* last useful digit, always keep 1 zero */
+			/* last useful digit of the fraction, always keep 1 zero */
 			p++;
-			for (q = p; *q; q++)
+			for (q = p; *q && *q != 'e' && *q != 'E'; q++)
 			{
 				if (*q != '0')
 					p = q;
 			}
-			/* drop trailing zeroes */
+			/* drop trailing zeroes of the fraction, keep an exponent */
 			if (*p != 0)
-				*(++p) = 0;
-			size = p - buf;
+				memmove(++p, q, strlen(q) + 1);
+			size = strlen(buf);
 		}
 	}
 	// although unlikely, snprintf can fail
